@@ -256,7 +256,9 @@ func c11fields(c *Ctx, p *load.Program) {
 			}
 		}
 		fs := facts.At(s.Instr, nil)
-		if !facts.Has(fs, func(a string) bool { return a == fmt.Sprintf("%d == len(fields)", sz) || a == fmt.Sprintf("len(fields) == %d", sz) }) {
+		if !facts.Has(fs, func(a string) bool {
+			return a == fmt.Sprintf("%d == len(fields)", sz) || a == fmt.Sprintf("len(fields) == %d", sz)
+		}) {
 			bad = append(bad, "field count is not tested to be exactly WormholeMessageFieldSize")
 		}
 		if !facts.HasAtom(fs, "4 == len(N/alephium.toByteVec(fields[3])#0)") && !facts.HasAtom(fs, "len(N/alephium.toByteVec(fields[3])#0) == 4") {
